@@ -83,7 +83,12 @@ type BatchPart struct {
 	Body   string `json:"body,omitempty"`
 	CT     string `json:"ct,omitempty"`
 	ID     string `json:"id,omitempty"`
+	// CL, if set, is sent as the inner Content-Length instead of the true length of Body.
+	CL string `json:"cl,omitempty"`
 }
+
+// BigPatchBody: a metadata patch larger than the 4 KiB buffers HTTP parsers start with.
+var BigPatchBody = `{"metadata":{"big":"` + strings.Repeat("v", 5000) + `"}}`
 
 // BatchBody renders a well-formed batch request body.
 func BatchBody(parts []BatchPart, boundary string) string {
@@ -99,7 +104,9 @@ func BatchBody(parts []BatchPart, boundary string) string {
 		if p.CT != "" {
 			fmt.Fprintf(&sb, "Content-Type: %s\r\n", p.CT)
 		}
-		if p.Body != "" {
+		if p.CL != "" {
+			fmt.Fprintf(&sb, "Content-Length: %s\r\n", p.CL)
+		} else if p.Body != "" {
 			fmt.Fprintf(&sb, "Content-Length: %d\r\n", len(p.Body))
 		}
 		sb.WriteString("\r\n")
@@ -185,7 +192,8 @@ func GenHostileReq() *rapid.Generator[Req] {
 			for i, np := 0, rapid.IntRange(0, 3).Draw(t, "np"); i < np; i++ {
 				parts = append(parts, BatchPart{Method: pick(t, "bm", []string{"GET", "DELETE", "PATCH", "POST", "BOGUS", ""}),
 					Path: pick(t, "bp", []string{"/storage/v1/b/bkt/o/a", "/storage/v1/b/bkt/o", "/batch/storage/v1", "", "not a path", "/storage/v1/b/bkt/o/missing"}),
-					Body: pick(t, "bb", []string{"", "{}", "null", "{\"metadata\":{\"k\":\"v\"}}"}), CT: pick(t, "bct", []string{"", "application/json"}), ID: pick(t, "bid", []string{"", "<a>", "plain", "<"})})
+					Body: pick(t, "bb", []string{"", "{}", "null", "{\"metadata\":{\"k\":\"v\"}}", BigPatchBody}), CT: pick(t, "bct", []string{"", "application/json"}), ID: pick(t, "bid", []string{"", "<a>", "plain", "<", ">", "<>", "<<a>>"}),
+					CL: pick(t, "bcl", []string{"", "", "", "0", "5", "100000", "4611686018427387904", "-1", "x"})})
 			}
 			body := BatchBody(parts, boundary)
 			switch rapid.IntRange(0, 5).Draw(t, "bmut") {
